@@ -62,7 +62,7 @@ class Check:
         os.makedirs(os.path.join(VERIF, 'reports'), exist_ok=True)
         os.makedirs(os.path.join(VERIF, 'evidence'), exist_ok=True)
         for (r, k, d, l) in known_hit:
-            print('KNOWN-FINDING: property=%s %s %s -- %s' % (self.pid, r, k, known_keys[(r, k)].get('what', d)))
+            print('KNOWN-FINDING: property=%s %s %s -- %s' % (self.pid, r, k, (known_keys[(r, k)].get('id', '') + ' ' + known_keys[(r, k)].get('what', d))[:160]))
         rc = 0
         for i, (r, k, d, l) in enumerate(unlisted):
             rc = 1
